@@ -25,6 +25,7 @@ def dispatch (line : String) : String :=
     else if op = "time" then opTime args
     else if op = "go" then opGo args
     else if op = "gof" then opGof args
+    else if op = "gotime" then opGoTime args
     else if op = "prep" then opPrep args
     else if op = "hashdiff" then opHashdiff args
     else if op = "ecache" then opEcache args
